@@ -380,6 +380,12 @@ func execModelCase(c *Case) []ModeResult {
 			if want, ok := call.Holds[name]; ok {
 				// the caller has refilled this buffer since the call it is taken from: write the new contents into the SAME object
 				if same, _ := CompareTensor(want, t, "bits"); !same {
+					// (the caller may also have given its tensor another shape in place: same object, same memory)
+					if size := t.DataSize(); !shapeEq(t.Shape(), want.Shape) && size == len(want.Data) {
+						if err := t.Reshape(want.Shape...); err != nil {
+							return []ModeResult{{"model", "infra:" + err.Error(), ""}}
+						}
+					}
 					if err := overwrite(t, want); err != nil {
 						return []ModeResult{{"model", "infra:" + err.Error(), ""}}
 					}
@@ -426,4 +432,16 @@ func execModelCase(c *Case) []ModeResult {
 		res = append(res, ModeResult{"load", "pass", ""})
 	}
 	return res
+}
+
+func shapeEq(a tensor.Shape, b []int) bool {
+	if len(a) != len(b) {
+		return false
+	}
+	for i := range a {
+		if a[i] != b[i] {
+			return false
+		}
+	}
+	return true
 }
